@@ -41,15 +41,17 @@ type Case struct {
 
 func gen(t *rapid.T) Case {
 	c := Case{Bundle: rapid.SampledFrom([][]string{{"caA"}, {"caB"}, {"caA", "caB"}, {"bundleAB"}, {"caB", "caA"}, {"caA", "caA"},
-		{"caA"}, {"caB"}, {"caA", "caB"}, {}, {""}, {"", ""}, {"", "caA"}}).Draw(t, "bundle")}
+		{"caA"}, {"caB"}, {"caA", "caB"}, {}, {""}, {"", ""}, {"", "caA"},
+		// a CA and its successor under the same subject name (key roll-over), in either order, in two files or one
+		{"caA", "caA2"}, {"caA2", "caA"}, {"bundleAA2"}, {"caA2"}, {"caA", "caB", "caA2"}}).Draw(t, "bundle")}
 	c.ClientChain = rapid.Bool().Draw(t, "clientChain")
 	c.ViaConf = rapid.Bool().Draw(t, "viaConf")
 	c.Parallel = rapid.SampledFrom([]int{1, 1, 2, 3, 4}).Draw(t, "parallel")
-	n := rapid.IntRange(1, 3).Draw(t, "n")
+	n := rapid.SampledFrom([]int{1, 1, 2, 2, 3, 3, 3, 4, 6, 8}).Draw(t, "n")
 	for i := 0; i < n; i++ {
 		l := fmt.Sprintf("e%d", i)
 		c.Endpoints = append(c.Endpoints, EP{
-			Identity:   rapid.SampledFrom([]string{"caA", "caA", "caB", "caB", "foreign", "selfsigned", "expired", "notyet", "wrongname", "justexpired", "justvalid", "clientsca"}).Draw(t, l+"I"),
+			Identity:   rapid.SampledFrom([]string{"caA", "caA", "caB", "caB", "caA2", "foreign", "selfsigned", "expired", "notyet", "wrongname", "justexpired", "justvalid", "clientsca"}).Draw(t, l+"I"),
 			Proto:      rapid.SampledFrom([]string{"any", "any", "tls12", "tls13", "old"}).Draw(t, l+"P"),
 			ClientAuth: rapid.SampledFrom([]string{"none", "request", "require", "request-otherca", "verifyifgiven", "verifyifgiven-otherca"}).Draw(t, l+"C"),
 		})
@@ -79,6 +81,10 @@ func exec(c Case) (vh.Outcome, error) {
 			trusted["caB"] = true
 		case "bundleAB":
 			trusted["caA"], trusted["caB"] = true, true
+		case "caA2":
+			trusted["caA2"] = true
+		case "bundleAA2":
+			trusted["caA"], trusted["caA2"] = true, true
 		}
 	}
 	genuine := func(e EP) bool {
@@ -88,7 +94,7 @@ func exec(c Case) (vh.Outcome, error) {
 		if issuer == "justvalid" {
 			issuer = "caA" // issued by CA A 20 s ago: as genuine as an older one
 		}
-		return (issuer == "caA" || issuer == "caB") && trusted[issuer] && e.Proto != "old" && e.ClientAuth != "verifyifgiven-otherca"
+		return (issuer == "caA" || issuer == "caB" || issuer == "caA2") && trusted[issuer] && e.Proto != "old" && e.ClientAuth != "verifyifgiven-otherca"
 	}
 	var specs []vh.CAServerSpec
 	var ips []string
@@ -237,7 +243,7 @@ func exec(c Case) (vh.Outcome, error) {
 	return out, nil
 }
 
-const rule = "CA bundles of one or two files (single CA, the other CA, both as separate files, both in one file, a file listed twice) and, 4 in 13, degenerate ones (no file at all, empty paths, an empty path next to a real file: either refused as configuration, or no CA beyond the readable files is trusted); the 'foreign' CA is installed as this process's host trust store (SSL_CERT_FILE), i.e. it stands for a publicly trusted CA that is not configured; 1..3 endpoints on loopback aliases, each a real gRPC-over-TLS server with identity {issued by configured CA A / CA B with matching IP SAN, by a foreign CA, self-signed, expired a day ago / 20 s ago, not yet valid, valid since 20 s only (genuine), valid for another address, issued by the CA of the RA's own client certificate} x protocol range {TLS 1.0-1.1 only, 1.2 only, 1.3 only, any} x client-certificate policy {none, request, require+verify, request while naming another CA, verify-if-given against the right / another client CA}; the signer is built from the struct or from the 'signer' map of a gensign configuration; the client certificate file holds the leaf alone or the leaf followed by its issuing CA; 1..4 Sign calls issued at the same moment on the one Signer, each judged like a single call; every server would sign (each with its own certificate, so the answering server is identifiable). Oracle: Sign succeeds iff some endpoint is genuine (issued by a CA of the bundle, right address, valid now, speaks >= TLS 1.2) and the answer is the first such endpoint's; impostors never receive the RPC; negotiated version >= 1.2; when the server asked, the peer certificate is byte-identical to the configured client certificate. Non-trivial: at least one impostor in the list."
+const rule = "CA bundles of one or two files (single CA, the other CA, both as separate files, both in one file, a file listed twice, a CA together with its successor under the same subject name and another key - in two files in either order or in one file) and, 4 in 13, degenerate ones (no file at all, empty paths, an empty path next to a real file: either refused as configuration, or no CA beyond the readable files is trusted); the 'foreign' CA is installed as this process's host trust store (SSL_CERT_FILE), i.e. it stands for a publicly trusted CA that is not configured; 1..8 endpoints on loopback aliases (the caller's context carries a 30 s deadline), each a real gRPC-over-TLS server with identity {issued by configured CA A / CA B / CA A's same-named successor with matching IP SAN, by a foreign CA, self-signed, expired a day ago / 20 s ago, not yet valid, valid since 20 s only (genuine), valid for another address, issued by the CA of the RA's own client certificate} x protocol range {TLS 1.0-1.1 only, 1.2 only, 1.3 only, any} x client-certificate policy {none, request, require+verify, request while naming another CA, verify-if-given against the right / another client CA}; the signer is built from the struct or from the 'signer' map of a gensign configuration; the client certificate file holds the leaf alone or the leaf followed by its issuing CA; 1..4 Sign calls issued at the same moment on the one Signer, each judged like a single call; every server would sign (each with its own certificate, so the answering server is identifiable). Oracle: Sign succeeds iff some endpoint is genuine (issued by a CA of the bundle, right address, valid now, speaks >= TLS 1.2) and the answer is the first such endpoint's; impostors never receive the RPC; negotiated version >= 1.2; when the server asked, the peer certificate is byte-identical to the configured client certificate. Non-trivial: at least one impostor in the list."
 
 func TestC18TLS(t *testing.T) {
 	vh.Run(t, vh.Spec[Case]{Property: "C18", Name: "TestC18TLS", Rule: rule, Gen: gen, Exec: exec})
